@@ -201,9 +201,17 @@ def gen_valid(rng, stats, tier):
         letter = b"a" if rng.random() < 0.35 else b"e"
         stats["line/edge_" + letter.decode()] = stats.get("line/edge_" + letter.decode(), 0) + 1
         lit = gen_weight(rng, stats)
-        ln = letter + blank(rng, True) + int_lit(rng, u) + blank(rng) + int_lit(rng, v)
-        if lit is not None: ln += blank(rng) + lit
-        if rng.random() < 0.12: ln += blank(rng)
+        parts = [letter + blank(rng, True) + int_lit(rng, u), int_lit(rng, v)] + ([lit] if lit is not None else [])
+        seps = [blank(rng) for _ in parts[1:]]
+        if rng.random() < (0.05 if tier == "quick" else 0.08):                 # a data line as long as the buffer allows (the weight near / past the middle of it)
+            L = rng.choice([300, 511, 512, 513, 514, 600, 1000, 1020, 1021, 1022]) - (1 if crlf else 0)
+            cur = sum(map(len, parts)) + sum(map(len, seps))
+            if L > cur:
+                j = rng.randrange(len(seps)) if rng.random() < 0.5 else len(seps) - 1
+                seps[j] = seps[j] + bytes(rng.choice(b" \t") for _ in range(L - cur))
+                stats["line/long_edge"] = stats.get("line/long_edge", 0) + 1
+        ln = parts[0] + b"".join(sp + pt for sp, pt in zip(seps, parts[1:]))
+        if rng.random() < 0.12 and len(ln) < 1000: ln += blank(rng)
         lines.append(ln)
         edges.append((u - 1, v - 1, 1.0 if lit is None else float(lit.decode())))
     while budget > 0 and rng.random() < 0.25:
